@@ -18,6 +18,7 @@ PROPS = {
     "C06": dict(tests=[T("TestVerifC06Seq", 4000, 60000)]),
     "C07": dict(tests=[T("TestVerifC07", 30000, 400000)]),
     "C08": dict(tests=[T("TestVerifC08Buffer", 6000, 100000), T("TestVerifC08Store", 150, 1500, shrinktime="0s")]),
+    "C10": dict(tests=[T("TestVerifC10", 60, 1200, pkg=".", shrinktime="0s")]),
     "C11": dict(tests=[T("TestVerifC11", 3000, 30000)]),
     "C12": dict(level="fault_enumeration", evaluations_from_extra="c12_faulted_loads", tests=[T("TestVerifC12", 3, 40, q_shards=12)]),
     "C13": dict(tests=[T("TestVerifC13Group", 1500, 20000), T("TestVerifC13Store", 400, 6000, shrinktime="0s")]),
@@ -28,5 +29,6 @@ PROPS = {
                        dict(T("TestVerifC18", 6000, 50000, th_shards=8), go="go1.26.8", tiers=("thorough",), label="go1.26.8")]),
     "C16": dict(tests=[T("TestVerifC16", 300, 4000, shrinktime="0s", gomaxprocs=[16, 4, 2, 16])]),
     "C17": dict(tests=[T("TestVerifC17", 20000, 150000)]),
+    "C19": dict(tests=[T("TestVerifC19", 250, 3000, race=True, shrinktime="0s", gomaxprocs=[16, 4, 8, 16], q_timeout=400)]),
     "C20": dict(tests=[T("TestVerifC20", 400, 6000, shrinktime="0s", gomaxprocs=[16, 4, 2, 16])]),
 }
